@@ -225,6 +225,10 @@ class LazyEvaluatedKernelTensor(LinearOperator):
             new_kernel = self.kernel  # Avoid unnecessary copying when we aren't explicitly indexing batch dims
         else:
             try:
+                if 0 < len(self.kernel.batch_shape) < len(batch_shape):
+                    # fewer batch dimensions than the broadcast shape: the indices would be applied to the wrong
+                    # (left-aligned) dimensions of the parameters without raising - expand first
+                    raise IndexError
                 new_kernel = self.kernel.__getitem__(batch_indices)
             # We're going to handle multi-batch indexing with a try-catch loop
             # This way - in the default case, we can avoid doing expansions of self.kernel which can be
